@@ -188,11 +188,14 @@ struct Case {
     text_fields: Vec<TextField>,
     /// `Some(reason)`: built from values outside "protocol-valid"; observed only
     lenient: Option<&'static str>,
+    /// for a message that came out of a decoder: the document it was decoded
+    /// from and how that was spelled (goes into the detail of a violation)
+    source: Option<Value>,
 }
 
 impl Case {
     fn new(variant: &'static str, msg: AnyMsg) -> Self {
-        Case { variant, msg, strings: Vec::new(), shape: String::new(), text_fields: Vec::new(), lenient: None }
+        Case { variant, msg, strings: Vec::new(), shape: String::new(), text_fields: Vec::new(), lenient: None, source: None }
     }
 
     fn signature(&self) -> String {
@@ -614,7 +617,7 @@ impl<'a> Gen<'a> {
                 }
             }
         };
-        Case { variant, msg: AnyMsg::Prov(msg), strings, shape, text_fields, lenient }
+        Case { variant, msg: AnyMsg::Prov(msg), strings, shape, text_fields, lenient, source: None }
     }
 
     //--- publication
@@ -864,6 +867,7 @@ struct WfDoc {
     variant: &'static str,
     lenient: Option<&'static str>,
     strings: Vec<(&'static str, String)>,
+    source: Option<Value>,
 }
 
 struct WfBatch {
@@ -898,6 +902,7 @@ impl WfBatch {
             variant: case.variant,
             lenient: case.lenient,
             strings: case.strings.clone(),
+            source: case.source.clone(),
         });
         if self.stream.len() >= 6 << 20 || self.docs.len() >= 1500 {
             self.flush(ctx);
@@ -956,12 +961,15 @@ impl WfBatch {
                             let doc = &self.stream[d.start..d.start + d.len];
                             let strings: Vec<Value> =
                                 d.strings.iter().map(|(n, v)| json!({"field": n, "value": clip(v, 400)})).collect();
-                            let detail = json!({
+                            let mut detail = json!({
                                 "variant": d.variant,
                                 "expat": msg,
                                 "string_fields": strings,
                                 "xml": clip(&String::from_utf8_lossy(doc), 6000),
                             });
+                            if let Some(src) = &d.source {
+                                detail["message_was_decoded_from"] = src.clone();
+                            }
                             match d.lenient {
                                 Some(r) => ctx.obs(&format!("lenient:{r}:not-well-formed"), 1),
                                 None => ctx.violation(
@@ -1135,12 +1143,27 @@ fn feed_parser(ctx: &mut Ctx, kind: Kind, origin: &str, mutator: &'static str, d
 fn first_differing_field(a: &str, b: &str) -> String {
     let at = a.bytes().zip(b.bytes()).position(|(x, y)| x != y).unwrap_or(a.len().min(b.len()));
     let head = &a.as_bytes()[..at.min(a.len())];
-    // the last `identifier:` before the difference
+    // the last `identifier: ` before the difference that is not inside a
+    // string literal (field values may look like that, too)
     let mut end = None;
-    for i in (0..head.len()).rev() {
-        if head[i] == b':' && i > 0 && (head[i - 1].is_ascii_alphanumeric() || head[i - 1] == b'_') && head.get(i + 1).map(|c| *c == b' ').unwrap_or(true) {
+    let mut in_string = false;
+    let mut escaped = false;
+    for i in 0..head.len() {
+        let c = head[i];
+        if in_string {
+            if escaped {
+                escaped = false;
+            } else if c == b'\\' {
+                escaped = true;
+            } else if c == b'"' {
+                in_string = false;
+            }
+            continue;
+        }
+        if c == b'"' {
+            in_string = true;
+        } else if c == b':' && i > 0 && (head[i - 1].is_ascii_alphanumeric() || head[i - 1] == b'_') && head.get(i + 1).map(|c| *c == b' ').unwrap_or(true) {
             end = Some(i);
-            break;
         }
     }
     match end {
@@ -1155,16 +1178,120 @@ fn first_differing_field(a: &str, b: &str) -> String {
     }
 }
 
+/// The strings the `Debug` text of a message shows for its free-text fields
+/// (`description`, `error_text`): the types have no accessor for the latter.
+fn free_texts_in_debug(dbg: &str) -> Vec<String> {
+    let mut out = Vec::new();
+    for marker in ["description: Some(\"", "error_text: Some(\""] {
+        let mut from = 0;
+        while let Some(at) = dbg[from..].find(marker) {
+            let start = from + at + marker.len();
+            let mut val = String::new();
+            let mut esc = false;
+            let mut end = dbg.len();
+            for (i, c) in dbg[start..].char_indices() {
+                if esc {
+                    val.push(c);
+                    esc = false;
+                } else if c == '\\' {
+                    esc = true;
+                } else if c == '"' {
+                    end = start + i;
+                    break;
+                } else {
+                    val.push(c);
+                }
+            }
+            out.push(val);
+            from = end.min(dbg.len());
+        }
+    }
+    out
+}
+
+/// parse → write → parse → compare → write again, with no reporting at all.
+/// `None`: the document was rejected, or everything agreed.
+fn quiet_roundtrip_failure(kind: Kind, doc: &[u8]) -> Option<&'static str> {
+    let r = crate::core::catch(|| {
+        let m = match kind.parse(doc) {
+            Ok(m) => m,
+            Err(_) => return None,
+        };
+        let doc2 = match m.write() {
+            Ok(d) => d,
+            Err(_) => return Some("write-error"),
+        };
+        match kind.parse(&doc2) {
+            Err(_) => Some("decode-error"),
+            Ok(m2) if m2 != m => Some("not-equal"),
+            Ok(m2) => match m2.write() {
+                Ok(d3) if d3 == doc2 => None,
+                _ => Some("rewrite-differs"),
+            },
+        }
+    });
+    match r {
+        Ok(x) => x,
+        Err(_) => Some("panic"),
+    }
+}
+
+fn lex_uses_json(uses: &[c11_text::LexUse]) -> Value {
+    json!(uses
+        .iter()
+        .map(|u| json!({
+            "where": u.slot, "family": u.family, "form": u.form,
+            "value_an_xml_processor_reports": clip(&u.logical, 1500), "as_written": clip(&u.lexical, 3000),
+        }))
+        .collect::<Vec<_>>())
+}
+
+/// Which of the re-spelled values of a failing lexical document is enough to
+/// make it fail: `Some((slot, family, form, the smaller document))`. `None`:
+/// the same document in the plain spelling fails as well, so the spelling is
+/// not the cause.
+fn lexical_culprit(td: &c11_text::TextDoc) -> Option<(String, String, String, Option<Value>)> {
+    if let Some(plain) = td.render_plain() {
+        if quiet_roundtrip_failure(td.kind, &plain).is_some() {
+            return None;
+        }
+    }
+    if td.lex.len() == 1 {
+        let u = &td.lex[0];
+        return Some((u.slot.clone(), u.family.to_string(), u.form.to_string(), None));
+    }
+    for i in 0..td.lex.len() {
+        if let Some((doc, uses)) = td.render_only(i) {
+            if let (Some(what), Some(u)) = (quiet_roundtrip_failure(td.kind, &doc), uses.first()) {
+                let small = json!({
+                    "document_with_only_this_value_respelled": clip(&String::from_utf8_lossy(&doc), 6000),
+                    "it_fails_with": what,
+                    "lexical_forms": lex_uses_json(&uses),
+                });
+                return Some((u.slot.clone(), u.family.to_string(), u.form.to_string(), Some(small)));
+            }
+        }
+    }
+    let mut fams: Vec<&str> = td.lex.iter().map(|u| u.family).collect();
+    fams.sort();
+    fams.dedup();
+    Some(("several-values".to_string(), fams.join("+"), "combination".to_string(), None))
+}
+
 /// A document from the harness' own XML writer (`c11_text`): if the decoder
 /// accepts it, the message it returns came from the public API and carries
 /// protocol-valid field values, so it must be written as well-formed XML that
 /// parses back to an equal message (and writing that again gives the same
 /// bytes). A rejected document asserts nothing.
+///
+/// Documents of the lexical pass (`td.lex` not empty) are judged in the same
+/// way; in addition it is recorded which spellings the reader takes.
 fn check_text_doc(ctx: &mut Ctx, td: &c11_text::TextDoc, wf: &mut WfBatch) {
     let variant = td.variant;
     let kind = td.kind;
+    let lexical = !td.lex.is_empty();
     let describe = |doc2: Option<&[u8]>| {
-        json!({
+        let mut d = json!({
             "variant": variant,
             "optional_parts_left_out": td.absent,
             "optional_extras_present": td.extras,
@@ -1172,20 +1299,46 @@ fn check_text_doc(ctx: &mut Ctx, td: &c11_text::TextDoc, wf: &mut WfBatch) {
             "lenient": td.lenient,
             "input_document": clip(&String::from_utf8_lossy(&td.doc), 6000),
             "written_by_the_library": doc2.map(|d| clip(&String::from_utf8_lossy(d), 6000)),
-        })
+        });
+        if lexical {
+            d["lexical_forms"] = lex_uses_json(&td.lex);
+        }
+        d
     };
     let parsed = ctx.no_panic(&format!("parse-text-level:{}", kind.name()), || describe(None), || kind.parse(&td.doc));
     ctx.eval();
+    if lexical {
+        // which spellings does the reader take?
+        let outcome = match &parsed {
+            None => "panicked",
+            Some(Err(_)) => "rejected",
+            Some(Ok(_)) => "accepted",
+        };
+        ctx.obs(&format!("lexical_documents_{outcome}"), 1);
+        if let [u] = td.lex.as_slice() {
+            // one re-spelled value: the verdict of the reader is about it
+            let slot_kind = u.slot.split(':').next().unwrap_or("?");
+            ctx.obs(&format!("lexical:{outcome}:{slot_kind}:{}", u.form), 1);
+            if slot_kind != "attr" {
+                ctx.obs(&format!("lexical_slot:{}:{}:{outcome}", u.slot, u.family), 1);
+            }
+        } else {
+            ctx.obs(&format!("lexical_documents_with_several_respelled_values_{outcome}"), 1);
+        }
+    }
     let m = match parsed {
         None => return,
         Some(Err(e)) => {
             ctx.obs(&format!("text_level_rejected:{variant}"), 1);
             if std::env::var_os("VERIF_C11_TRACE").is_some() {
-                eprintln!("C11 trace: text-level {variant} rejected ({e}): {}", clip(&String::from_utf8_lossy(&td.doc), 700));
+                let forms: Vec<String> = td.lex.iter().map(|u| format!("{}={}", u.slot, u.form)).collect();
+                eprintln!("C11 trace: text-level {variant} rejected ({e}) [{}]: {}", forms.join(" "), clip(&String::from_utf8_lossy(&td.doc), 700));
             }
-            if ctx.wants_sample("text-level document rejected (asserts nothing)") {
-                ctx.sample("text-level document rejected (asserts nothing)", || {
+            let key = if lexical { "lexical form rejected by the reader (asserts nothing)" } else { "text-level document rejected (asserts nothing)" };
+            if ctx.wants_sample(key) {
+                ctx.sample(key, || {
                     let mut d = describe(None);
+                    d["input_document"] = json!(clip(&String::from_utf8_lossy(&td.doc), 900));
                     d["error"] = json!(e);
                     d
                 });
@@ -1196,11 +1349,25 @@ fn check_text_doc(ctx: &mut Ctx, td: &c11_text::TextDoc, wf: &mut WfBatch) {
     };
     ctx.obs(&format!("text_level_accepted:{variant}"), 1);
     if td.lenient.is_none() {
-        ctx.sig(&format!(
-            "text-level|{variant}|absent:{}|extras:{}",
-            if td.absent.is_empty() { "-".to_string() } else { td.absent.join("+") },
-            if td.extras.is_empty() { "-".to_string() } else { td.extras.join("+") }
-        ));
+        if lexical {
+            for u in &td.lex {
+                ctx.sig(&format!("lexical|{variant}|{}|{}", u.slot, u.form));
+            }
+        } else {
+            ctx.sig(&format!(
+                "text-level|{variant}|absent:{}|extras:{}",
+                if td.absent.is_empty() { "-".to_string() } else { td.absent.join("+") },
+                if td.extras.is_empty() { "-".to_string() } else { td.extras.join("+") }
+            ));
+        }
+    }
+    if lexical {
+        // what the reader delivers as free text decides whether a writer may
+        // copy it out without escaping
+        for t in free_texts_in_debug(&format!("{m:?}")) {
+            let class = if t.contains('<') || t.contains('&') { "with-lt-or-amp" } else { "without-lt-or-amp" };
+            ctx.obs(&format!("lexical_free_text_delivered:{class}"), 1);
+        }
     }
     let doc2 = match ctx.no_panic(&format!("write-decoded:{variant}"), || describe(None), || m.write()) {
         None => return,
@@ -1217,6 +1384,11 @@ fn check_text_doc(ctx: &mut Ctx, td: &c11_text::TextDoc, wf: &mut WfBatch) {
     let mut case = Case::new(variant, m.clone());
     case.lenient = td.lenient;
     case.shape = format!("decoded from a text-level document; left out: {}", td.absent.join("+"));
+    case.source = Some(if lexical {
+        json!({"input_document": clip(&String::from_utf8_lossy(&td.doc), 4000), "lexical_forms": lex_uses_json(&td.lex)})
+    } else {
+        json!({"input_document": clip(&String::from_utf8_lossy(&td.doc), 4000)})
+    });
     wf.push(ctx, &case, &doc2);
     // oracle 2
     let back = ctx.no_panic(&format!("decode-own-output:{variant}"), || describe(Some(&doc2)), || kind.parse(&doc2));
@@ -1238,27 +1410,46 @@ fn check_text_doc(ctx: &mut Ctx, td: &c11_text::TextDoc, wf: &mut WfBatch) {
         }
     };
     match (failure, td.lenient) {
-        (None, None) => ctx.obs("text_level_roundtrip_equal", 1),
+        (None, None) => ctx.obs(if lexical { "lexical_roundtrip_equal" } else { "text_level_roundtrip_equal" }, 1),
         (None, Some(r)) => ctx.obs(&format!("lenient:{r}:roundtrip-equal"), 1),
         (Some((what, _)), Some(r)) => ctx.obs(&format!("lenient:{r}:{}", what.split(':').next().unwrap_or("failure")), 1),
         (Some((what, err)), None) => {
             let mut detail = describe(Some(&doc2));
             detail["error"] = json!(err);
             detail["decoded_message"] = json!(clip(&format!("{m:?}"), 3000));
-            ctx.violation(
-                &format!("C11:text-roundtrip:{variant}:{what}"),
-                &format!("{variant}: a message decoded from a protocol-valid document is not parsed back from the library's own output to an equal message ({what}: {err})"),
-                detail,
-            );
+            // a lexical document: name the value whose spelling is enough to
+            // make it fail (none: the plain spelling fails as well)
+            let culprit = if lexical { lexical_culprit(td) } else { None };
+            if let Some((slot, family, form, small)) = culprit {
+                if let Some(small) = small {
+                    detail["smaller_case"] = small;
+                }
+                detail["culprit"] = json!({"where": slot, "family": family, "form": form});
+                ctx.violation(
+                    &format!("C11:lexical-roundtrip:{variant}:{slot}:{family}:{what}"),
+                    &format!("{variant}: the reader accepts {slot} spelled as {form} ({family}), but the message it returns is not parsed back from the library's own output to an equal message ({what}: {err})"),
+                    detail,
+                );
+            } else {
+                if lexical {
+                    detail["note"] = json!("the same document with every value in the plain spelling fails as well");
+                }
+                ctx.violation(
+                    &format!("C11:text-roundtrip:{variant}:{what}"),
+                    &format!("{variant}: a message decoded from a protocol-valid document is not parsed back from the library's own output to an equal message ({what}: {err})"),
+                    detail,
+                );
+            }
         }
     }
-    let key = match kind {
-        Kind::Prov => "text-level RFC 6492 document",
-        Kind::Publ => "text-level RFC 8181 document",
-        _ => "text-level RFC 8183 document",
+    let key = match (lexical, kind) {
+        (true, _) => format!("lexical form accepted by the reader: {}", td.lex.iter().map(|u| u.family).collect::<Vec<_>>().join("+")),
+        (false, Kind::Prov) => "text-level RFC 6492 document".to_string(),
+        (false, Kind::Publ) => "text-level RFC 8181 document".to_string(),
+        (false, _) => "text-level RFC 8183 document".to_string(),
     };
-    if ctx.wants_sample(key) {
-        ctx.sample(key, || {
+    if ctx.wants_sample(&key) {
+        ctx.sample(&key, || {
             let mut d = describe(Some(&doc2));
             d["input_document"] = json!(clip(&String::from_utf8_lossy(&td.doc), 700));
             d["written_by_the_library"] = json!(clip(&String::from_utf8_lossy(&doc2), 700));
@@ -1285,6 +1476,32 @@ fn text_level(ctx: &mut Ctx, crypto: Option<&Crypto>, wf: &mut WfBatch) {
         ctx.drain_chain_hook(|| json!({"while": "generating field values (text-level)", "variant": td.variant}));
         check_text_doc(ctx, &td, wf);
         ctx.drain_chain_hook(|| json!({"while": "parsing a text-level document", "variant": td.variant}));
+    }
+}
+
+/// The lexical pass: documents of the same population with attribute values
+/// and text nodes re-spelled in the other ways XML allows.
+fn lexical_level(ctx: &mut Ctx, crypto: Option<&Crypto>, wf: &mut WfBatch) {
+    let n = ctx.stage_budget((48_000, 640_000), 20_000, 96, 0);
+    let mut rng = ctx.rng("lexical-forms");
+    let mut g = c11_text::TextGen::new(crypto);
+    for i in 0..n {
+        let td = match crate::core::catch(|| g.next_lexical(&mut rng)) {
+            Ok(td) => td,
+            Err(p) => {
+                let loc = crate::core::panic_location(&p);
+                ctx.violation(&format!("C11:panic:construct:{loc}"), &format!("panic while generating field values for a lexical document: {p}"), json!({"index": i}));
+                continue;
+            }
+        };
+        ctx.drain_chain_hook(|| json!({"while": "generating field values (lexical)", "variant": td.variant}));
+        if td.lex.is_empty() {
+            // a message without attributes and text (cannot happen: every root has `type` or a handle)
+            ctx.obs("lexical_documents_without_a_slot", 1);
+            continue;
+        }
+        check_text_doc(ctx, &td, wf);
+        ctx.drain_chain_hook(|| json!({"while": "parsing a lexical document", "variant": td.variant}));
     }
 }
 
@@ -1466,6 +1683,8 @@ pub fn run(ctx: &mut Ctx) {
     }
     // messages that only the decoders can produce (optional parts absent, extras present)
     text_level(ctx, crypto.as_ref(), &mut wf);
+    // the same, with every other spelling XML has for the same character data
+    lexical_level(ctx, crypto.as_ref(), &mut wf);
     wf.flush(ctx);
 
     ctx.obs("constructor_refused:uri_candidates", g.refused_uri);
